@@ -303,6 +303,9 @@ func (th *Thread) visitInstr(fr *frame, instr ssa.Instruction) continuation {
 		th.pos = ip
 	}
 	if e.path.steps > e.w.cfg.MaxSteps {
+		if e.spinSuspect != "" {
+			panic(livelockEvent{e.spinSuspect + " (step limit)"})
+		}
 		panic(inconclusive{"step limit exceeded"})
 	}
 	switch instr := instr.(type) {
@@ -526,9 +529,56 @@ func (th *Thread) loopCheck(fr *frame) {
 	if n > e.path.loopHits[key] {
 		e.path.loopHits[key] = n
 	}
+	if n%1000 == 0 {
+		// (with a large unwinding limit the step limit ends the path first: remember the suspicion for then)
+		if d := th.spinCandidate(fr, key, n); d != "" {
+			e.spinSuspect = d
+		}
+	}
 	if n > e.w.cfg.Unwind {
+		if d := th.spinCandidate(fr, key, n); d != "" {
+			panic(livelockEvent{d})
+		}
 		panic(inconclusive{fmt.Sprintf("unwinding limit %d reached in %s", e.w.cfg.Unwind, key)})
 	}
+}
+
+// spinCandidate: a loop of the code under test (not of a harness) that is still turning after n iterations
+// while no other thread could run - everybody else is blocked or finished, so nobody can change what this
+// loop waits for - is a livelock CANDIDATE. It only becomes a violation if the native replay confirms it
+// (a goroutine still burning CPU after the scenario: vcheck); otherwise it stays what every unwinding
+// failure is: inconclusive.
+func (th *Thread) spinCandidate(fr *frame, key string, n int) string {
+	e := th.eng
+	if !e.loopIsInRepo(fr) {
+		return ""
+	}
+	for _, t := range e.threads {
+		if t != th && t.couldRun() && !t.quiescing {
+			return ""
+		}
+	}
+	return fmt.Sprintf("thread %d (%s) still turns in %s after %d iterations while no other thread can run", th.id, th.name, key, n)
+}
+
+type livelockEvent struct{ detail string }
+
+// loopIsInRepo: the function belongs to one of the repository's packages and is not harness code.
+func (e *Engine) loopIsInRepo(fr *frame) bool {
+	fn := fr.fn
+	if fn == nil || fn.Pkg == nil {
+		if fn != nil && fn.Parent() != nil {
+			fn = fn.Parent()
+		}
+		if fn == nil || fn.Pkg == nil {
+			return false
+		}
+	}
+	if !strings.HasPrefix(fn.Pkg.Pkg.Path(), "github.com/mdzio/go-mqtt") {
+		return false
+	}
+	file := e.w.prog.Fset.Position(fn.Pos()).Filename
+	return !strings.Contains(file, "zz_verif_")
 }
 
 type loopKey struct {
